@@ -8,8 +8,11 @@ SPEC = Spec(
                 files={"zz_verif_c06_fanout_test.go": "c06/fanout_test.go"},
                 test="TestVerifC06Fanout", driver="drv_c06", n={"quick": 2500, "thorough": 40000}),
         Harness(name="router", module="connector", pkg="connector",
-                files={"zz_verif_c06_router_test.go": "c06/router_test.go"},
+                files={"zz_verif_c06_router_test.go": "c06/router_test.go", "zz_verif_c06_routerc_test.go": "c06/router_common.go.tmpl"},
                 test="TestVerifC06Router", driver="drv_c06", n={"quick": 1500, "thorough": 20000}),
+        Harness(name="xrouter", module="connector/xconnector", pkg="connector/xconnector",
+                files={"zz_verif_c06_xrouter_test.go": "c06/xrouter_test.go", "zz_verif_c06_routerc_test.go": "c06/router_common.go.tmpl"},
+                test="TestVerifC06XRouter", driver="drv_c06", n={"quick": 1500, "thorough": 20000}),
         Harness(name="exporter", module="exporter", pkg="exporter/exporterhelper",
                 files={"zz_verif_c06_exporter_test.go": "c06/exporter_test.go"},
                 test="TestVerifC06Exporter", driver="drv_c06", n={"quick": 1200, "thorough": 20000}),
